@@ -47,6 +47,9 @@ import AutosarVerif.Lemmas.IndexBridge
 import AutosarVerif.Lemmas.NameWfReal
 import AutosarVerif.Lemmas.StepY
 import AutosarVerif.Lemmas.StepYWitness
+import AutosarVerif.Lemmas.StepL
+import AutosarVerif.Lemmas.LoadInv
+import AutosarVerif.Lemmas.StepZ
 
 namespace AV.C04
 open AV.W
@@ -170,5 +173,32 @@ theorem C04_guarded_history_with_copy_and_move_exists : type_of% @AV.W.yOps_reac
 /-- negation witness for the file-set clause of the move guard (known finding c10:move-keeps-descendant-file-sets)
 `theorem move_unguarded_breaks_inv : Inv fWorld ∧ ¬ Inv (opMove mvSpecF nameEnv fWorld 3 4 none).1` -/
 theorem C04_witness_move_guard_needed : type_of% @AV.W.move_unguarded_breaks_inv := @AV.W.move_unguarded_breaks_inv
+
+
+/-! ### added later in the third session (loads, cross-model moves, merge order): restated by name
+(`type_of%` keeps the statement identical to the lemma; the signature is quoted in the comment) -/
+
+/-- **with first loads**: `ReachL` (`Lemmas/StepL.lean`) = the guarded steps of `OpY` plus `load_buffer` into a model without files, guarded by a decidable condition on the RESULT of the load (strict or warning-free; SHORT-NAME discipline `SnOk`; paths of the document pairwise different; a reference holds one text item): the full invariant holds in every reachable state
+`theorem reachL_ginv (hH : IdxHyp S V vOk) (hR : RefWF S) (hv32 : vOk &&& 0xFFFFFFFF = vOk) (hroot : nmAutosar ≠ S.nmShortName) (hNoSub : ∀ t, S.isRef t = true → S.subCount t = 0) {w : World} (h : ReachL S V vOk rootAttrs nmAutosar w) : GInv S vOk w` -/
+theorem C04_invariants_with_first_loads : type_of% @AV.W.reachL_ginv := @AV.W.reachL_ginv
+
+/-- `theorem opLoad_first_ginv (hroot : nmAutosar ≠ S.nmShortName) (hR : RefWF S) (hNoSub : ∀ t, S.isRef t = true → S.subCount t = 0) (hv32 : vOk &&& 0xFFFFFFFF = vOk) (hc : Clean strict st) (hg : LoadGuard S vOk h kids st.ver) (hG : GInv S vOk w) : GInv S vOk (opLoad S V nmAutosar w k name strict buf).1` -/
+theorem C04_first_load_establishes_the_invariants : type_of% @AV.LoadInv.opLoad_first_ginv := @AV.LoadInv.opLoad_first_ginv
+
+/-- what the parser collects for the index is exactly the path list of the returned tree (document order), for trees with the SHORT-NAME discipline
+`theorem runParser_idents (strict : Bool) (buf : Bytes) (nid nmAutosar : Nat) (h : Hdr) (k : Items) (st : PState) (hr : runParser S V strict buf nid nmAutosar = (.ok (h, k), st)) (hs : SnOk S (.elem h k .nil)) : st.idents = entries S (.elem h k .nil) []` -/
+theorem C04_parser_collects_exactly_the_paths : type_of% @AV.LoadInv.runParser_idents := @AV.LoadInv.runParser_idents
+
+/-- negation witness = known finding c04:document-with-duplicate-paths-accepted on a toy specification
+`theorem dup_no_minv (vOk nid : Nat) : ¬ ∀ m ∈ (opLoad ldDupSpec toyEnv 100 (w0 ldDupSpec) 0 [102] true dupDoc).1.models, MInv ldDupSpec vOk nid m` -/
+theorem C04_witness_duplicate_path_document : type_of% @AV.LoadInv.Witness.dup_no_minv := @AV.LoadInv.Witness.dup_no_minv
+
+/-- negation witness: a document whose SHORT-NAME is not the first sub-element is accepted (sequence order is not checked) and indexed under a wrong path
+`theorem sn_not_first_no_minv (vOk nid : Nat) : ¬ ∀ m ∈ (opLoad ldSeqSpec toyEnv 100 (w0 ldSeqSpec) 0 [102] true seqDoc).1.models, MInv ldSeqSpec vOk nid m` -/
+theorem C04_witness_short_name_not_first : type_of% @AV.LoadInv.Witness.sn_not_first_no_minv := @AV.LoadInv.Witness.sn_not_first_no_minv
+
+/-- **with moves between models**: `ReachZ` (`Lemmas/StepZ.lean`) = `ReachY` plus guarded cross-model moves (`opMoveAny` = what the driver runs for `move`): the full invariant and disjoint ids in every reachable state
+`theorem reachZ_ginv (hH : IdxHyp S V vOk) (hR : RefWF S) (hv32 : vOk &&& 0xFFFFFFFF = vOk) {w : World} (h : ReachZ S V vOk rootAttrs w) : GInv S vOk w` -/
+theorem C04_invariants_with_cross_model_moves : type_of% @AV.W.reachZ_ginv := @AV.W.reachZ_ginv
 
 end AV.C04
